@@ -10,6 +10,20 @@ Bounded-exhaustive exploration of gemato's hashing entry points:
   get_file_metadata  gemato.verify.get_file_metadata on a real file (hint = st_size)
   cli_hash           `gemato hash -H NAMES PATH [PATH]`
   hash_bytes         gemato.hash.hash_bytes (BytesIO)
+  metadata_stepwise  get_file_metadata driven one next() at a time, the way verify_path and
+                     update_entry_for_path consume it: after st_size and st_mtime have been
+                     handed out (the fstat is done, the descriptor is open) the file is changed
+                     (grown / truncated / rewritten in place) and only then the checksum dict is
+                     fetched.  The st_size that get_file_metadata passes on as the size hint is
+                     then stale: __size__ and every digest must be those of the content as it is
+                     when it is read
+  verify_path_racing verify_path end to end against an entry that describes the file as it was
+                     at fstat time, the same change applied between the st_mtime step and the
+                     checksum step (a forwarding generator around the module attribute
+                     gemato.verify.get_file_metadata; no hook in /repo)
+  verify_path_static / update_entry_static
+                     verify_path / update_entry_for_path on an entry WITHOUT checksums (size only)
+                     whose size is / is not the size of an unchanging file
 
 For the first three the file object is an io.BufferedReader over ScriptedRaw, an
 io.RawIOBase whose readinto() never crosses a scripted cut position, i.e. it returns
@@ -63,7 +77,16 @@ RULE = ('every content length in 0..300, 65534..65538, 131070..131074, 1048574..
         '(+ `gemato hash -`) under every hint, instead of the full group name sets; for n > 300 single-name sets '
         'use the schedules whole/4096/65536 only and the peek() variant runs under hints {0, n} only (thorough: '
         'no reduction). '
-        'A case = (entry point, n, name set, hint, schedule, peek); distinct by that tuple; non-trivial = '
+        'Changing files: every length in {0, 1, 2, 100, 65535..65537, 1048575..1048577} (thorough: + 8191..8193, '
+        '131071..131073) x every change in {none, append 1 byte, append 65537 bytes, append 1 MiB, truncate by 1, '
+        'truncate to n/2, truncate to 0, rewrite in place with other content of the same length} applied after '
+        'get_file_metadata has yielded st_size and st_mtime and before the checksum dict is requested x every name '
+        'set in {empty, each of the 10 Manifest names, the all-available group} (metadata_stepwise); the same '
+        'lengths x changes x {empty, one name, group} through verify_path with an entry describing the file '
+        'before the change (verify_path_racing); every length x entry size in {n, n+1, n-1, 0, 2n} with an entry '
+        'without checksums through verify_path and update_entry_for_path (hashes=None and hashes=[]) on an '
+        'unchanging file. '
+        'A case = (entry point, n, name set, hint, schedule, peek | change, entry size); distinct by that tuple; non-trivial = '
         'n > 0 and the reference verdict is definite (digest or unsupported, not DONT_CARE)')
 ASSUMPTIONS = [
     'trusted base: CPython hashlib one-shot digests (cross-checked against coreutils md5sum/sha1sum/'
@@ -76,6 +99,10 @@ ASSUMPTIONS = [
     'real files live on tmpfs where st_size is exact; file systems reporting st_size 0 are covered only '
     'through the scripted hint 0',
     'lengths between the windows (301..65533 etc.) and beyond 2 MiB+1 are not enumerated',
+    'changing files: the change happens strictly between two next() calls of the consumer (after st_mtime, '
+    'before the checksum dict), so "the content" is the file as it is from then on; writers running '
+    'concurrently with the read itself are out of scope.  update_entry_for_path is not driven over a file '
+    'that changes size (it asserts st_size == real size by design)',
 ]
 
 SMALL_MAX = 300
@@ -499,6 +526,254 @@ def judge(entry, kind, names, seed, L, o, repeat=1):
     return what, got, out
 
 
+# ---------------------------------------------------------------- files that change after fstat
+
+CHANGES = ('none', 'append1', 'append_buf', 'append_slurp', 'trunc1', 'trunc_half', 'trunc0', 'rewrite')
+APPEND = {'append1': 1, 'append_buf': 65536 + 1, 'append_slurp': 1048576}
+CHANGING = ('metadata_stepwise', 'verify_path_racing', 'verify_path_static', 'update_entry_static')
+ENTRY_PATH = 'entry-path'       # verify_path / update_entry_for_path do not look at the entry's path
+
+
+def changing_lengths(tier):
+    out = [0, 1, 2, 100]
+    for c in (65536, 1048576) if tier == 'quick' else (8192, 65536, 131072, 1048576):
+        out += [c - 1, c, c + 1]
+    return sorted(out)
+
+
+def stepwise_namesets():
+    avail = tuple(sorted(n for n in MANIFEST_NAMES if rm.available(n)))
+    return [()] + [(n,) for n in MANIFEST_NAMES] + [avail]
+
+
+def racing_namesets(seed):
+    avail = tuple(sorted(n for n in MANIFEST_NAMES if rm.available(n)))
+    return [(), (rot(avail, seed)[0],), avail]
+
+
+def entry_sizes(L):
+    return sorted({L, L + 1, L - 1, 0, 2 * L} - {-1})
+
+
+def changed_content(seed, L, change):
+    """Content of the file once ``change`` has been applied to pattern(seed, L); None where the change
+    does not apply (nothing to cut from an empty file; n/2 coincides with another change below 4)."""
+    if change == 'none':
+        return pattern(seed, L)
+    if change in APPEND:
+        return pattern(seed, L + APPEND[change])
+    if L == 0:
+        return None
+    if change == 'trunc1':
+        return pattern(seed, L - 1)
+    if change == 'trunc0':
+        return b''
+    if change == 'trunc_half':
+        return pattern(seed, L // 2) if L >= 4 else None
+    if change == 'rewrite':
+        return pattern(seed, L + 4)[4:]      # every aligned word differs from the one it replaces
+    raise ValueError(change)
+
+
+def apply_change(path, pre, post, change):
+    """In place: the inode the open descriptor refers to is the one that changes."""
+    if change == 'none':
+        return
+    if change in APPEND:
+        with open(path, 'ab') as f:
+            f.write(post[len(pre):])
+    elif change.startswith('trunc'):
+        os.truncate(path, len(post))
+    else:
+        with open(path, 'r+b') as f:
+            f.write(post)
+
+
+_REFC = {}
+
+
+def refdigest_changed(name, seed, L, change, post):
+    if change != 'rewrite':
+        return refdigest('manifest', name, seed, len(post))     # still a prefix of the pattern
+    key = (name, seed, L)
+    r = _REFC.get(key)
+    if r is None:
+        r = _REFC[key] = rm.hexdigest(name, post)
+    return r
+
+
+def _stepwise(path, names, between):
+    """-> (the first five yields, everything yielded after ``between()``)"""
+    g = gverify.get_file_metadata(path, list(names))
+    try:
+        head = []
+        for _ in range(5):
+            try:
+                head.append(next(g))
+            except StopIteration:
+                return head, None
+        between()
+        return head, list(g)
+    finally:
+        g.close()
+
+
+class _ChangeAfterMtime:
+    """Seam on the module attribute gemato.verify.get_file_metadata: forwards the real generator
+    unchanged and runs ``between()`` when the consumer asks for the item after the fifth."""
+
+    def __init__(self, between):
+        self.between = between
+        self.fired = 0
+
+    def __enter__(self):
+        self.orig = orig = gverify.get_file_metadata
+
+        def wrapped(path, hashes):
+            g = orig(path, hashes)
+
+            def forward():
+                try:
+                    for i, v in enumerate(g):
+                        yield v
+                        if i == 4:
+                            self.fired += 1
+                            self.between()
+                finally:
+                    g.close()
+            return forward()
+        gverify.get_file_metadata = wrapped
+        return self
+
+    def __exit__(self, *a):
+        gverify.get_file_metadata = self.orig
+        return False
+
+
+def _entry(size, checksums):
+    return gman.new_manifest_entry('DATA', ENTRY_PATH, size, dict(checksums))
+
+
+def exec_changing(entry, path, names, between, esize=None, pre_sums=None, hashes=None):
+    """-> (observation, extra)"""
+    if entry == 'metadata_stepwise':
+        return gem.call(_stepwise, path, names, between), None
+    if entry == 'verify_path_racing':
+        with _ChangeAfterMtime(between) as seam:
+            o = gem.call(gverify.verify_path, path, _entry(esize, pre_sums))
+        return o, seam.fired
+    if entry == 'verify_path_static':
+        return gem.call(gverify.verify_path, path, _entry(esize, {})), None
+    if entry == 'update_entry_static':
+        e = _entry(esize, {})
+        o = gem.call(gverify.update_entry_for_path, path, e, hashes=hashes)
+        return o, (e.size, e.checksums)
+    raise ValueError(entry)
+
+
+def _norm_diff(v):
+    """(ok, diff) of verify_path -> (ok, sorted list of tuples) or None if it is not of that shape"""
+    try:
+        ok, diff = v
+        return bool(ok), sorted(tuple(d) for d in diff)
+    except (TypeError, ValueError):
+        return None
+
+
+def judge_changing(entry, names, seed, L, change, post, o, extra, esize=None, pre_sums=None):
+    """-> (verdict label, outcome label, [(sig, message), ...]); names are Manifest names"""
+    what, _info = expectation('manifest', names)
+    if what != 'digest' or o['kind'] == 'exc':
+        return judge(entry, 'manifest', names, seed, L, o)
+    out = []
+    v = o['value']
+    n = len(post)
+    if entry == 'metadata_stepwise':
+        head, tail = v
+        if not (len(head) == 5 and head[0] is True and isinstance(tail, list) and len(tail) == 1):
+            out.append(({'check': 'metadata_shape', 'entry': entry},
+                        f'{entry}: generator yielded {str(head)[:100]} then {str(tail)[:100]} for a regular file'))
+            return what, 'ret', out
+        m = tail[0]
+        if not isinstance(m, dict):
+            out.append(({'check': 'result_not_mapping', 'entry': entry},
+                        f'{entry}: checksum item is {type(m).__name__}, not a mapping'))
+            return what, 'ret', out
+        sz = m.get('__size__')
+        if type(sz) is not int or sz != n:
+            out.append(({'check': 'size_mismatch', 'entry': entry, 'change': change},
+                        f'{entry}: __size__ = {sz!r} but the content read is {n} bytes (the file was {L} bytes '
+                        f'at fstat time, st_size yielded {head[3]!r}, then: {change})'))
+        for name in names:
+            ref = refdigest_changed(name, seed, L, change, post)
+            if m.get(name) != ref:
+                out.append(({'check': 'digest_mismatch', 'entry': entry, 'name': name, 'change': change},
+                            f'{entry}: {name} digest {m.get(name)!r} != one-shot digest {ref!r} of the {n}-byte '
+                            f'content the file has when it is read ({L} bytes at fstat time, then: {change})'))
+        return what, 'ret', out
+    if entry in ('verify_path_racing', 'verify_path_static'):
+        want = [('__size__', esize, n)] if n != esize else []
+        for name in sorted(names):
+            ref = refdigest_changed(name, seed, L, change, post)
+            if pre_sums[name] != ref:
+                want.append((name, pre_sums[name], ref))
+        want = (not want, sorted(want))
+        got = _norm_diff(v)
+        if got != want:
+            def size_part(r):
+                return [d for d in r[1] if d[0] == '__size__']
+            same_size_part = got is not None and got[0] == want[0] and size_part(got) == size_part(want)
+            chk = 'verify_digest_not_of_content' if same_size_part else 'verify_size_not_of_content'
+            out.append(({'check': chk, 'entry': entry, 'change': change},
+                        f'{entry}: entry size {esize} checksums {sorted(pre_sums)}; the file is {n} bytes when '
+                        f'read ({L} at fstat time, then: {change}); verify_path returned {str(v)[:160]}, '
+                        f'expected {str(want)[:160]}'))
+        return what, 'ret', out
+    if entry == 'update_entry_static':
+        size, sums = extra
+        want = (n != esize, n, {})
+        got = (v, size, sums)
+        if got != want or type(size) is not int:
+            out.append(({'check': 'update_size_not_of_content', 'entry': entry},
+                        f'{entry}: entry without checksums, size {esize}, file of {n} bytes: returned {v!r}, '
+                        f'entry now size={size!r} checksums={sums!r}; expected {want!r}'))
+        return what, 'ret', out
+    raise ValueError(entry)
+
+
+def applicable(L, change):
+    return not (L == 0 and change not in APPEND and change != 'none') and not (change == 'trunc_half' and L < 4)
+
+
+def changing_case(entry, seed, L, change, names, esize=None, hashes=None):
+    c = {'entry': entry, 'seed': seed, 'L': L, 'kind': 'manifest', 'names': list(names), 'change': change}
+    if entry.endswith('_static'):
+        c['esize'] = esize
+    if entry == 'update_entry_static':
+        c['hashes'] = hashes
+    return c
+
+
+def run_changing_case(case, path):
+    """Create the file, run the case -> (observation, content at read time, verdict, outcome, violations)"""
+    entry, seed, L, change = case['entry'], case['seed'], case['L'], case['change']
+    names = tuple(case['names'])
+    pre = pattern(seed, L)
+    post = changed_content(seed, L, change)
+    if post is None:
+        return None
+    with open(path, 'wb') as f:
+        f.write(pre)
+    esize = L if entry == 'verify_path_racing' else case.get('esize')
+    pre_sums = {}
+    if entry == 'verify_path_racing':
+        pre_sums = {n: refdigest('manifest', n, seed, L) for n in names}
+    o, extra = exec_changing(entry, path, names, lambda: apply_change(path, pre, post, change),
+                             esize, pre_sums, case.get('hashes'))
+    what, got, viols = judge_changing(entry, names, seed, L, change, post, o, extra, esize, pre_sums)
+    return o, extra, post, what, got, viols
+
+
 # ---------------------------------------------------------------- one case
 
 def make_case(entry, seed, L, kind, names, hint=None, sched=None, peek=0, repeat=1):
@@ -542,6 +817,7 @@ class Ctx:
         self.scratch = scratch
         self.max_slurp = ghash.MAX_SLURP_SIZE
         self.seen_sigs = set()
+        self.sampled_changing = False
 
     def record(self, entry, L, kind, names, what, got, viols, case_fn, desc):
         st = self.stats
@@ -615,8 +891,48 @@ class Ctx:
         return o
 
 
+    def changing(self, entry, L, change, names, path, esize=None, hashes=None):
+        case = changing_case(entry, self.seed, L, change, names, esize, hashes)
+        o, extra, post, what, got, viols = run_changing_case(case, path)
+        st = self.stats
+        c = st.counters
+        c['changing_cases_' + entry] += 1
+        n = len(post)
+        if entry == 'metadata_stepwise' and o['kind'] == 'ret':
+            head = o['value'][0]
+            if len(head) == 5 and head[3] == L and n != L:
+                # the size get_file_metadata has seen (and passes on as the hint) is stale
+                path_kind = 'slurp' if 0 < L < self.max_slurp else 'chunked'
+                c[f'stepwise_stale_hint_too_{"small" if n > L else "large"}_{path_kind}_path'] += 1
+                if not names:
+                    c['stepwise_stale_hint_no_checksums'] += 1
+                if (L < self.max_slurp) != (n < self.max_slurp):
+                    c['stepwise_length_moved_across_slurp_limit'] += 1
+            if len(head) == 5 and head[3] == L and change == 'rewrite':
+                c['stepwise_same_length_other_content'] += 1
+        elif entry == 'verify_path_racing':
+            c['racing_change_applied_between_mtime_and_checksums'] += extra
+            if n != L and not viols:
+                c['racing_ok_size_difference_reported'] += 1
+        elif entry.endswith('_static') and not viols:
+            c['static_ok_size_differs' if esize != L else 'static_ok_size_equal'] += 1
+        self.record(entry, L, 'manifest', names, what, got, viols, lambda: case,
+                    (entry, L, names, change, esize, repr(hashes)))
+        if entry == 'metadata_stepwise' and change == 'append_buf' and L == 100 and len(names) == 1 \
+                and what == 'digest' and not self.sampled_changing:
+            self.sampled_changing = True
+            st.sample({'entry': entry, 'length_at_fstat': L, 'change': change, 'length_when_read': n,
+                       'names': list(names), 'verdict': what, 'got': got, 'violations': len(viols)})
+
+
 def describe(case):
     s = f'{case["entry"]} n={case["L"]} names={case["names"]}'
+    if 'change' in case:
+        s += f' change={case["change"]}'
+        if 'esize' in case:
+            s += f' entry_size={case["esize"]}'
+        if 'hashes' in case:
+            s += f' hashes={case["hashes"]!r}'
     if 'hint' in case:
         sc = case['sched']
         s += f' hint={case["hint"]} schedule={sc[0]} step={sc[1]} cuts={sc[2][:8]} peek={case.get("peek", 0)}'
@@ -632,6 +948,11 @@ def replay(case, scratch):
     names = tuple(case['names'])
     data = pattern(seed, L)
     repeat = case.get('repeat', 1)
+    if entry in CHANGING:
+        root = fresh_root(scratch)
+        r = run_changing_case(case, os.path.join(root, file_name(seed)))
+        return [{'sig': sig, 'case': case, 'message': f'{msg} [case {describe(case)}]'}
+                for sig, msg in (r[5] if r else [])]
     if entry in SCRIPTED:
         label, step, cuts = case['sched']
         o, _raw = exec_scripted(entry, data, names, case['hint'], step, tuple(cuts), case.get('peek', 0))
@@ -787,7 +1108,27 @@ def run_real_large(spec, tier, seed, ctx):
     os.unlink(path)
 
 
-RUNNERS = {'S': run_small, 'L': run_large, 'K': run_heavy, 'R': run_real, 'RL': run_real_large}
+def run_changing(spec, tier, seed, ctx):
+    """One (length, change): the step-by-step generator and the racing verify_path under every name set;
+    for the unchanging file also the entries without checksums."""
+    _t, L, change = spec
+    root = fresh_root(ctx.scratch)
+    path = os.path.join(root, file_name(seed))
+    sets = rot(stepwise_namesets(), seed)
+    for names in sets:
+        ctx.changing('metadata_stepwise', L, change, names, path)
+    for names in sets:
+        if expectation('manifest', names)[0] == 'digest':      # the entry carries the digests of the old content
+            ctx.changing('verify_path_racing', L, change, names, path)
+    if change == 'none':
+        for esize in entry_sizes(L):
+            ctx.changing('verify_path_static', L, change, (), path, esize=esize)
+            for hashes in (None, []):
+                ctx.changing('update_entry_static', L, change, (), path, esize=esize, hashes=hashes)
+    os.unlink(path)
+
+
+RUNNERS = {'C': run_changing, 'S': run_small, 'L': run_large, 'K': run_heavy, 'R': run_real, 'RL': run_real_large}
 
 
 def _cost(spec):
@@ -796,6 +1137,8 @@ def _cost(spec):
         return spec[1] / spec[2] * len(spec[3]) * {'full': 8, 'both': 3, 'one': 1.5}[spec[4]]
     if t == 'L':
         return spec[1] * 30
+    if t == 'C':
+        return (2 * spec[1] + APPEND.get(spec[2], 0)) * 40 + 200000
     if t == 'RL':
         return spec[1] * 8
     if t == 'S':
@@ -827,6 +1170,7 @@ def shards(tier, seed):
         else:
             out += [('K', L, k, (hi,), 'full') for k in (1, 2) for hi in allh]
             out += [('K', L, k, allh, 'full') for k in (3, 7)]
+    out += [('C', L, ch) for L in changing_lengths(tier) for ch in CHANGES if applicable(L, ch)]
     out.sort(key=_cost, reverse=True)
     return out
 
@@ -879,6 +1223,28 @@ def finish(total, tier):
         # not a harness error: judge() has already reported those cases as digest_mismatch
         total.notes.append(f'gemato agreed with coreutils in {c["gemato_equals_coreutils"]} of '
                            f'{c["coreutils_crosschecks"]} cross-checked (length, algorithm) pairs')
+    pairs = [(L, ch) for L in changing_lengths(tier) for ch in CHANGES if applicable(L, ch)]
+    sets = stepwise_namesets()
+    n_static = sum(len(entry_sizes(L)) for L in changing_lengths(tier))
+    for entry, want in (('metadata_stepwise', len(pairs) * len(sets)),
+                        ('verify_path_racing', len(pairs) * sum(1 for s in sets if expectation('manifest', s)[0] == 'digest')),
+                        ('verify_path_static', n_static), ('update_entry_static', 2 * n_static)):
+        if c['changing_cases_' + entry] != want:
+            errs.append(f'vacuity: {c["changing_cases_" + entry]} {entry} cases ran, expected {want}')
+    for key, why in (('stepwise_stale_hint_too_small_slurp_path', 'no file grew after an fstat that selects the slurp path'),
+                     ('stepwise_stale_hint_too_large_slurp_path', 'no file shrank after an fstat that selects the slurp path'),
+                     ('stepwise_stale_hint_too_small_chunked_path', 'no file grew after an fstat that selects the chunked path'),
+                     ('stepwise_stale_hint_too_large_chunked_path', 'no file shrank after an fstat that selects the chunked path'),
+                     ('stepwise_stale_hint_no_checksums', 'no changed file was read with an empty hash list'),
+                     ('stepwise_length_moved_across_slurp_limit', 'no file moved across MAX_SLURP_SIZE after the fstat'),
+                     ('stepwise_same_length_other_content', 'no file was rewritten in place with the same length'),
+                     ('racing_change_applied_between_mtime_and_checksums', 'the seam around get_file_metadata never fired inside verify_path'),
+                     ('racing_ok_size_difference_reported', 'verify_path never reported the size of a file that changed after the fstat'),
+                     ('static_ok_size_differs', 'no entry without checksums with a size other than the file\'s was judged correct'),
+                     ('static_ok_size_equal', 'no entry without checksums with the file\'s size was judged correct')):
+        # the *_ok_* counters also drop to zero when gemato gets all of those cases wrong; the violations say so
+        if not c[key] and not (('_ok_' in key) and c['violations_raw']):
+            errs.append('vacuity (changing files): ' + why)
     kinds = {k.split('/')[1] for k in total.outcomes}
     for need in ('digest', 'unsupported'):
         if need not in kinds:
@@ -897,6 +1263,9 @@ def extra_evidence(total, tier):
         'lengths': SMALL_MAX + 1 + len(large_lengths(tier)),
         'large_lengths': large_lengths(tier),
         'name_sets': len(namesets()),
+        'changing_file_lengths': changing_lengths(tier),
+        'changing_file_changes': list(CHANGES),
+        'changing_file_name_sets': len(stepwise_namesets()),
         'manifest_names_available': [n for n in MANIFEST_NAMES if rm.available(n)],
         'manifest_names_unavailable': [n for n in MANIFEST_NAMES if not rm.available(n)],
         'names_outside_table': list(UNKNOWN_MANIFEST),
